@@ -18,7 +18,7 @@ RULE = ("a hostile packet recipe (templates: V2 response, V3 handshake reply, V3
         "operators: header fields set to boundary values, ciphertext length not a multiple of 16, valid signature/tag recomputed "
         "over random or truncated ciphertext, bad PKCS#7 under a valid signature, empty payload, every type nibble, wrong key, "
         "clear data, splice/concatenate, bursts of 1100/2600 identical small packets in one delivery for every type nibble, arbitrary segmentation) is sent by the model device at a protocol phase (V2 send; V3 "
-        "handshake, data after authentication, re-authentication after 12 h; or pushed unsolicited on an idle established connection before the next call) to one API level (LAN.authenticate/LAN.send, "
+        "handshake, data after authentication, re-authentication after 12 h; or pushed unsolicited on an idle established connection before the next call, after which the peer may stay silent for the whole retry budget) to one API level (LAN.authenticate/LAN.send, "
         "Device.authenticate/Device._send_command, AirConditioner.refresh). Oracle: LAN calls end in list-of-bytes / ProtocolError "
         "(incl. AuthenticationError) / TimeoutError; Device.authenticate only AuthenticationError; Device._send_command returns a "
         "list; refresh() does not raise when the transport produced no frame. Non-trivial: hostile bytes pass marker+minimum "
@@ -126,6 +126,9 @@ def check_case(case: dict):
                 out["hostile"] = data
                 conn.send_stream(data, delay=0.01, cuts=cuts)
                 await asyncio.sleep(0.05)
+                if case.get("silent"):
+                    # ... and from then on the peer stays silent: the whole retry budget runs out
+                    dev.on_data = lambda dev_, conn_, frame_: ("drop",)
             else:
                 armed["on"] = True
             out["call"] = "send"
@@ -209,7 +212,7 @@ def _nontrivial(case) -> bool:
 
 def _run_one(ctx, case):
     import json
-    key = hash((json.dumps(case["hostile"], sort_keys=True), case["version"], case["phase"], case["api"], tuple(case.get("cuts", [])), case.get("delay"), case.get("tick"), case.get("debug"), case.get("then_close"), case.get("reset")))
+    key = hash((json.dumps(case["hostile"], sort_keys=True), case["version"], case["phase"], case["api"], tuple(case.get("cuts", [])), case.get("delay"), case.get("tick"), case.get("debug"), case.get("then_close"), case.get("reset"), case.get("silent")))
     nt = _nontrivial(case)
     cls = f"v{case['version']}/{case['phase']}/{case['api']}"
     ctx.case(key, nt, cls=cls)
@@ -296,6 +299,11 @@ def _catalogue():
             d = round(2.0 - j * 0.00025, 6)
             cases.append({"version": 3, "phase": "send", "api": "lan", "hostile": {"t": "v3", "ptype": pt, "inner": {"t": "v2"}, "enc": "ok", "tag": "ok"},
                           "cuts": [], "delay": d, "tick": 0.001})
+    # a well-formed unsolicited packet (or a hostile one) is queued on the idle connection, then the peer stays silent
+    for version, recs in ((2, v2[:6] + [{"t": "v2"}]), (3, v3[:10] + [{"t": "v3", "ptype": 3, "inner": {"t": "v2"}, "enc": "ok", "tag": "ok"}])):
+        for r in recs:
+            for api in ("lan", "device", "ac"):
+                cases.append({"version": version, "phase": "idle", "api": api, "cuts": [], "hostile": r, "silent": True})
     # bursts: a long run of identical small packets in one delivery (for every type nibble: header-only 8-byte packets,
     # and well-formed signed/tagged ones), optionally with a genuine response behind them
     genuine = {"t": "v3", "ptype": 3, "inner": {"t": "v2"}, "enc": "ok", "tag": "ok"}
@@ -333,7 +341,7 @@ def run(ctx) -> None:
             "version": st.just(version), "phase": st.sampled_from(phases), "api": st.sampled_from(["lan", "lan", "device", "ac"]),
             "hostile": hostile.recipes(version), "cuts": gens.cut_sets(200, 4)},
             optional={"delay": st.sampled_from([0.05, 1.0, 1.9985, 1.999, 1.9995, 2.0, 2.0005, 3.999, 5.9995]), "tick": st.sampled_from([0.0, 0.001]),
-                      "debug": st.sampled_from([False, False, False, True]), "then_close": st.sampled_from([0.0, 0.3, 1.9, 2.5]), "reset": st.booleans()}).map(
+                      "debug": st.sampled_from([False, False, False, True]), "silent": st.booleans(), "then_close": st.sampled_from([0.0, 0.3, 1.9, 2.5]), "reset": st.booleans()}).map(
                 lambda c: dict(c, api="lan") if (c["api"] == "ac" and c["phase"] == "auth") else c)
 
     ctx.hyp("v3", cases(3), lambda c: _run_one(ctx, c), ctx.n(6000, 400000))
